@@ -117,6 +117,7 @@ def check_C02(tier):
         tab = rng.choice(["default", "octet_rule", "hypervalent", "tight", "wide"])
         gen_replay(rep, "pool%d_%s" % (k, tab), alpha, TABLES[tab], 4, fastjit=quick)
     narrow_deep(rep, quick, rng)
+    testsuite_traces(rep, quick, "decoder")
     coverage_run(rep, DEC["frag"] + ["[epsilon]", "[Foo]"], "default", 3)
     trace_random(rep, "C02", quick)
     rep.exhaustive = True
@@ -140,6 +141,65 @@ def narrow_deep(rep, quick, rng, table="default"):
         gen_replay(rep, "narrow%d_%s" % (i, tabname(table)), alpha, table, 9 if quick else 10, fastjit=quick, deep=True)
     if not quick:
         gen_replay(rep, "narrow5_default", ["[C]", "[Branch1]", "[Ring1]", "[=Ring1]", "[Ring2]"], table, 9, fastjit=False, deep=True)
+
+
+def testsuite_traces(rep, quick, which, own=None):
+    """RECORD -> TRACE with the repository's own fast tests as the driver: every decoder / encoder call they make
+    is recorded (input, flags, table in force, outcome) and validated by TLC - not the tests' assertions."""
+    import json as _json
+    import testsuite_trace as tt
+    from common import REPO, scratch
+    rc, recs, log_ = tt.record(REPO, 1500 if quick else 10000, scratch("tests_"))
+    if rc is None:
+        raise MachineryError("the repository's tests could not be run for recording: %s" % log_)
+    rep.notes["repository_tests_as_driver"] = {"pytest_exit": rc, "calls_recorded": len(recs)}
+    groups = {}
+    for r in recs:
+        if not isinstance(r.get("x"), str) or not all(ord(c) < 127 and c != '"' for c in r["x"]):
+            continue
+        if r["fn"] == "decoder" and which == "decoder":
+            rec = {"kind": r["kind"], "out": r["out"] if isinstance(r["out"], str) else ""}
+            if len(r["x"]) <= 800:
+                rec["raw"] = r["x"]             # scanned by the specification's lexer
+            else:
+                try:                            # long strings: tokenised here (brackets and dots), judged as tokens
+                    rec["inp"] = de.split_tokens(r["x"])
+                except ValueError:
+                    continue
+            groups.setdefault((_json.dumps(r["table"], sort_keys=True), r["compatible"]), []).append(rec)
+        elif r["fn"] == "encoder" and which == "encoder":
+            groups.setdefault((_json.dumps(r["table"], sort_keys=True), False), []).append(
+                {"smi": r["x"], "strict": r["strict"], "kind": r["kind"], "why": "", "sel": r["out"] if r["kind"] == "ok" else "",
+                 "dec": r.get("dec", ""), "reenc": r.get("reenc", "")})
+    n = 0
+    for gi, ((tj, compat), rs) in enumerate(sorted(groups.items(), key=lambda kv: -len(kv[1]))):
+        table = _json.loads(tj)
+        seen, uniq = set(), []
+        for r_ in rs:
+            k = _json.dumps(r_, sort_keys=True)
+            if k not in seen:
+                seen.add(k)
+                uniq.append(r_)
+        if quick and len(uniq) > 1200:
+            uniq = random.Random(seed() + gi).sample(uniq, 1200)
+        n += len(uniq)
+        if which == "decoder":
+            trace_validate(rep, "tests%d" % gi, uniq, table, compat)
+        else:
+            import checks_enc
+            for strict in (True, False):
+                part = [r_ for r_ in uniq if r_["strict"] == strict]
+                if part:
+                    results, events = de.validate_roundtrip_trace("tests%d_%s" % (gi, strict), part, table)
+                    rep.states += sum(r_.distinct for r_ in results)
+                    rep.traces += len(part)
+                    for e in events:
+                        if e.get("ev") == "MISMATCH" and (own is None or e["prop"] in own):
+                            rec = part[e["tid"]]
+                            rep.violation("%s: a call made by the repository's tests: encoder(%r, strict=%s) -> %s %r, decoder -> %r : %s" % (
+                                e["prop"], rec["smi"], strict, rec["kind"], rec["sel"][:200], rec["dec"][:200], e["clause"]),
+                                {"smiles": rec["smi"], "strict": strict, "table": table, "record": rec})
+    rep.notes["repository_tests_as_driver"]["calls_validated"] = n
 
 
 def trace_random(rep, pid, quick, tables=("default", "wide", "tight")):
